@@ -54,6 +54,10 @@ CHECKS = {
          "Every member of the family is formatted and parsed back on every boundary date (signed and 5-6 digit years included), every boundary time (leap seconds included) and, for combined forms, on the small date set x times x whole-minute offsets; the formatted text is additionally perturbed in every way the statement grants.",
          "Trusted: the per-form value ranges written next to each form (two-digit years 1970..=2069, %C%y 0..=9999, no leap second through %s).",
          "DESIGN.md §4 C13"),
+ 'C14': ("subset-exhaustive exploration: for every base value ALL 2^21 subsets of the 21 parsed fields are supplied and resolved through every resolution method; bounded deviations (1 and 2 contradicting fields) on small subsets and co-singletons; setter histories of length 2 over all value pairs; soundness recomputed by a reference field derivation",
+         "Soundness (a successful result agrees with every supplied field) is checked on every one of the enumerated resolutions; completeness and the error classification are checked on all deviation-0 subsets under the statement's preconditions; deviations are explored smallest first (0, 1, 2).",
+         "Trusted: RefFields (derivation of all 21 fields from a RefCal date/time). Which of Impossible/OutOfRange is reported is not judged.",
+         "DESIGN.md §4 C14"),
  'C17': ("complete small scope (every stamp x every span 1..=40 ns x 3 operations), complete product of boundary stamps x span alphabet x offsets with a second application (idempotence), and all 65,536 digit counts x nanosecond lattice, against i128 floor arithmetic",
          "All sign/tie/multiple combinations occur in the exhaustively enumerated small scope; boundary products cover the 64-bit nanosecond window ends, both date range ends, spans around i64::MAX, zero/negative/inexpressible spans and the wall-clock basis for offsets; each successful result is re-rounded (depth 2) to show idempotence.",
          "Trusted: i128 floor arithmetic; RefLeapTime for leap-second operands of the sub-second operations. The RoundingError variant is not judged.",
